@@ -24,7 +24,8 @@ func Register() {
 			Env: twinEnv, TimeoutQuick: 25 * time.Minute, TimeoutThorough: 3 * time.Hour},
 	}})
 	rig.Register(&rig.Spec{Prop: "C40", Level: "exploration", Stages: []rig.Stage{
+		// no -trimpath here: the package's external tests locate their testdata through runtime.Caller at init time
 		{Name: "vitess", Twin: &rig.Twin{Pkg: "libraries/doltcore/sqle/binlogreplication", Run: "^TestVerifC40$"},
-			Env: twinEnv, TimeoutQuick: 30 * time.Minute, TimeoutThorough: 4 * time.Hour},
+			TimeoutQuick: 40 * time.Minute, TimeoutThorough: 4 * time.Hour},
 	}})
 }
